@@ -1,4 +1,4 @@
-import LoguruModel.Rotation.Spec
+import LoguruModel.Rotation.Ctime
 /-
 C07 – helper lemmas: the catch-up loop reaches the next boundary, closed forms of the step
 functions, and "step = next boundary" for every meaning.
